@@ -12,6 +12,7 @@
 import ChumskyModel.Model.Spec
 import ChumskyModel.Model.Text
 import ChumskyModel.Model.Pratt
+import ChumskyModel.Model.Ext
 import ChumskyModel.Model.Drops
 import ChumskyModel.Model.Input
 import ChumskyModel.Model.Nested
@@ -640,6 +641,72 @@ def mkHEnvBase (gap : Nat) (toks : List Nat) : Env :=
   { toks := toks, kind := .mapped, ek := .rich, defs := [], memoOn := false,
     tspans := layoutSpans gap n 0, eoi := (n * (gap + 2) + gap, n * (gap + 2) + gap) }
 
+/-! ### several extensions at once (model: Model/Ext.lean):
+     EX <id> <ek> <gap> <mode> <fuel> T <ngroups> (<gid> <n> kids..)* X <n> ( P A <atom> O <nops> <op>.. | N A <a> B <b> )* M <main> I <inputspec>
+   `call i` is extension `i` everywhere -/
+
+structure ECase where
+  id : String
+  ek : ErrKind
+  gap : Nat
+  mode : Mode
+  fuel : Nat
+  e : EEnv
+  main : G
+  inputs : List (List Nat)
+
+def extP : P Ext := do
+  match (← tok) with
+  | "P" => do
+    let a ← tok
+    if a != "A" then throw "expected A"
+    let atom ← gP
+    let o ← tok
+    if o != "O" then throw "expected O"
+    let n ← nat
+    let mut ops := []
+    for _ in [0:n] do ops := (← prattOpP) :: ops
+    pure (.pratt atom ops.reverse)
+  | "N" => do
+    let a ← tok
+    if a != "A" then throw "expected A"
+    let ga ← gP
+    let b ← tok
+    if b != "B" then throw "expected B"
+    pure (.nested ga (← gP))
+  | t => throw s!"bad extension kind {t}"
+
+def extCase : P ECase := do
+  let id ← tok
+  let ek ← match (← tok) with
+    | "rich" => pure ErrKind.rich | "empty" => pure ErrKind.empty
+    | t => throw s!"extension cases are Rich or EmptyErr, got {t}"
+  let gap ← nat
+  let mode ← match (← tok) with
+    | "parse" => pure Mode.emit | "check" => pure Mode.check
+    | t => throw s!"bad mode {t}"
+  let fuel ← nat
+  let t ← tok
+  if t != "T" then throw "expected T"
+  let n ← nat
+  let mut groups := []
+  for _ in [0:n] do
+    let gid ← nat
+    let kids ← natList
+    groups := (gid, kids) :: groups
+  let x ← tok
+  if x != "X" then throw "expected X"
+  let nx ← nat
+  let mut exts := []
+  for _ in [0:nx] do exts := (← extP) :: exts
+  let tm ← tok
+  if tm != "M" then throw "expected M"
+  let main ← gP
+  let i ← tok
+  if i != "I" then throw "expected I"
+  let inputs ← inputsP
+  pure { id, ek, gap, mode, fuel, e := { base := 0, exts := exts.reverse, groups := groups.reverse, gap }, main, inputs }
+
 def mkNEnv (c : NCase) (toks : List Nat) : NEnv :=
   let n := toks.length
   { base := { toks := toks, kind := .mapped, ek := .rich, defs := [], memoOn := false,
@@ -686,6 +753,17 @@ partial def loop (inp out : IO.FS.Stream) : IO Unit := do
       for ts in inputs do
         if fam == "tk" then out.putStrLn s!"{id}.{k} M -"
         else out.putStrLn s!"{id}.{k} M {runDrop fam n boxed mode hi ts}"
+        k := k + 1
+    | .error e => out.putStrLn s!"ERR {e} :: {line.trimAscii.toString}"
+    loop inp out
+  else if toks.head? == some "EX" then
+    match (extCase.run toks.tail) with
+    | .ok (c, _) =>
+      let mut k := 0
+      for ts in c.inputs do
+        let env := { mkHEnvBase c.gap ts with ek := c.ek }
+        out.putStrLn s!"{c.id}.{k} M {renderTop (parseTopE c.e c.fuel env c.mode c.main)}"
+        out.putStrLn s!"{c.id}.{k} S {renderSpec (pegTopE c.e c.fuel env c.main)}"
         k := k + 1
     | .error e => out.putStrLn s!"ERR {e} :: {line.trimAscii.toString}"
     loop inp out
